@@ -173,7 +173,8 @@
                                        'changed changed))))
       ((= type 'symbol-type) (eval (trap
                                     (let (expanded (lookup expr env env-module))
-                                      (if (= 'macro (. (destructure-function expanded) 'kind))
+                                      (if (and (= (type-of expanded) 'function-type)
+                                               (= 'macro (. (destructure-function expanded) 'kind)))
                                           (list 'result expanded, 'changed t)
                                           (list 'result expr,     'changed nil)))
                                     (if (= (. *trapped-signal* 'kind) 'unbound-symbol)
